@@ -24,6 +24,9 @@ SYMBOL_POOLS = {
     "int": {"a": 0, "b": 1, "c": 2},
     "long": {"a": "ab", "b": "b", "c": "a"},
     "neg": {"a": -1, "b": -2, "c": -3},          # hash(-1) == hash(-2) in CPython
+    # the documented string spellings of the epsilon symbol instead of the Epsilon object
+    "ab-epsilon-word": {"a": "a", "b": "b", "c": "c", "eps": "epsilon"},
+    "ab-epsilon-glyph": {"a": "a", "b": "b", "c": "c", "eps": "\u025b"},
 }
 
 
@@ -47,8 +50,8 @@ def tag(v):
 
 
 def tag_sym(s):
-    if isinstance(s, Epsilon) or s == Epsilon():
-        return "eps"
+    if isinstance(s, Epsilon) or s == Epsilon() or (isinstance(s, str) and s in ("epsilon", "\u025b")):
+        return "eps"         # the Epsilon object and its two documented string spellings
     return tag(s)
 
 
@@ -104,7 +107,7 @@ def concrete(calls, spool, ypool, perm=None):
     for c in calls:
         op = c[0]
         if op in ("add_transition", "remove_transition"):
-            sym = Epsilon() if c[2] == "eps" else ymap[c[2]]
+            sym = ymap.get("eps", Epsilon()) if c[2] == "eps" else ymap[c[2]]
             args = (smap[c[1]], sym, smap[c[3]])
             targs = [tag(args[0]), tag_sym(sym), tag(args[2])]
         elif op == "add_symbol":
